@@ -206,7 +206,7 @@ impl DnsCache {
             query_vec.push((srv_record.host().to_string(), RRType::AAAA));
 
             if let Some(new_expire) = expire_at {
-                if let Some(addrs) = self.addr.get_mut(srv_record.host()) {
+                if let Some(addrs) = self.addr.get_mut(&srv_record.host().to_lowercase()) {
                     for addr in addrs {
                         addr.record.set_expire_sooner(new_expire);
                     }
@@ -339,7 +339,7 @@ impl DnsCache {
             RRType::PTR => self.ptr.get_mut(record_name),
             RRType::SRV => self.srv.get_mut(record_name),
             RRType::TXT => self.txt.get_mut(record_name),
-            RRType::A | RRType::AAAA => self.addr.get_mut(record_name),
+            RRType::A | RRType::AAAA => self.addr.get_mut(&record_name.to_lowercase()),
             _ => return found,
         };
         if let Some(record_vec) = record_vec {
